@@ -1103,6 +1103,22 @@ func (e *specEnv) call(n *ast.CallExpr) (SVal, error) {
 			return SVal{}, err
 		}
 		return sv(Term{"(str.substr " + a.S + " " + b.S + " " + c.S + ")", SString}, types.Typ[types.String]), nil
+	case "nth":
+		// nth(tuple, i): the i-th component of a tuple-valued spec expression (a call of a multi-result function)
+		tv0, err := e.eval(n.Args[0])
+		if err != nil {
+			return SVal{}, err
+		}
+		lit, ok := n.Args[1].(*ast.BasicLit)
+		if !ok {
+			return SVal{}, fmt.Errorf("nth needs a literal index")
+		}
+		idx, _ := strconv.Atoi(lit.Value)
+		tup, ok := tv0.Ty.(*types.Tuple)
+		if !ok || idx < 0 || idx >= len(tv0.V.Tuple) {
+			return SVal{}, fmt.Errorf("nth: not a tuple / index out of range")
+		}
+		return SVal{V: tv0.V.Tuple[idx], Ty: tup.At(idx).Type()}, nil
 	case "replaceFirst":
 		// first occurrence only (strings.Replace(s, old, new, 1)); SMT-LIB str.replace has exactly this meaning
 		a, err := argT(0)
@@ -1429,6 +1445,20 @@ func (e *specEnv) goCall(n *ast.CallExpr) (SVal, error) {
 			return SVal{}, err
 		}
 		args = append(args, v.V)
+	}
+	if ct := fx.eng.contractFor(fn); ct != nil && ct.Flags["deterministic"] && fn.Signature.Results().Len() > 1 {
+		// f(args) of a deterministic function with several results: the tuple of its per-result uninterpreted functions
+		// (select one with nth(f(args), i))
+		var tys []types.Type
+		for _, p := range fn.Params {
+			tys = append(tys, p.Type())
+		}
+		var rs []Val
+		for i := 0; i < fn.Signature.Results().Len(); i++ {
+			rt := fn.Signature.Results().At(i).Type()
+			rs = append(rs, tv(fx.pureUF(fmt.Sprintf("%s#%d", fx.eng.shortName(fn), i), args, tys, rt)))
+		}
+		return SVal{V: Val{Tuple: rs, Known: true}, Ty: fn.Signature.Results()}, nil
 	}
 	if ct := fx.eng.contractFor(fn); ct != nil && ct.Flags["deterministic"] && fn.Signature.Results().Len() == 1 {
 		rt := fn.Signature.Results().At(0).Type()
